@@ -656,9 +656,10 @@ Section Stream.
     end.
 
   (* C13 at the Streams level: a value added through add_stream_value is in the stream that get
-     returns for the same name and position *)
+     returns for the same name and position (a global descriptor spans (0, usize::MAX) exclusive, so
+     position 0 -- never the position of a variable in a parsed script -- is excluded) *)
   Definition C13_streams_add_get_stmt : Prop :=
-    forall m name v g p m', streams_add_stream_value m name v g p = SOk m' ->
+    forall m name v g p m', 0 < p -> p < usize_max -> streams_add_stream_value m name v g p = SOk m' ->
       exists s', streams_get m' name p = Some s' /\
         match streams_get m name p with
         | Some s => stream_add_value s v g = SOk s'
